@@ -466,6 +466,14 @@ theorem sectionInv_step (s s' : CState J V) (a : Act J V) (h : SectionInv merge 
     (hs : ChangeSection.step merge s a = some s') : SectionInv merge s' := by
   obtain ⟨hm, hc⟩ := h
   cases a with
+  | begin t =>
+    simp only [ChangeSection.step] at hs; split at hs
+    · injection hs with hs; subst hs; exact ⟨hm, hc⟩
+    · cases hs
+  | finish t =>
+    simp only [ChangeSection.step] at hs; split at hs
+    · injection hs with hs; subst hs; exact ⟨hm, hc⟩
+    · cases hs
   | acquire t =>
     simp only [ChangeSection.step] at hs; split at hs
     · injection hs with hs; subst hs; exact ⟨(by intro j v hv; cases hv), hc⟩
@@ -480,7 +488,7 @@ theorem sectionInv_step (s s' : CState J V) (a : Act J V) (h : SectionInv merge 
       split at hv
       · rename_i w hw
         injection hv with hv; injection hv with h1 h2; subst h1; subst h2
-        exact ⟨(by rw [ho]; simp), hw⟩
+        exact ⟨(by rw [ho.1]; simp), hw⟩
       · cases hv
     · cases hs
   | call t =>
@@ -530,6 +538,61 @@ theorem calls_merge_current (cur : V) (acts : List (Act J V)) (s : CState J V)
       · cases hr
   exact (gen acts _ s ⟨(by intro j v hv; cases hv), (by intro c hc; cases hc)⟩ h).2
 
+/-- **requests_one_at_a_time.**  In every run of the system the requests are handled strictly one after the other
+(no `begin` while another request is being handled, `finish` only by the thread that began): the precondition under
+which the sequential theorems (`request_ok`, `histories`) describe a node serving several connections. -/
+theorem requests_one_at_a_time (cur : V) (acts : List (Act J V)) (s : CState J V)
+    (h : ChangeSection.run merge (ChangeSection.init cur) acts = some s) : OneAtATime none acts := by
+  have gen : ∀ (acts : List (Act J V)) (s0 s : CState J V),
+      ChangeSection.run merge s0 acts = some s → OneAtATime s0.busy acts := by
+    intro acts
+    induction acts with
+    | nil => intro s0 s _; simp [OneAtATime]
+    | cons a rest ih =>
+      intro s0 s hr
+      simp only [ChangeSection.run] at hr
+      split at hr
+      · rename_i s1 hs1
+        have hrest := ih s1 s hr
+        cases a with
+        | begin t =>
+          simp only [ChangeSection.step] at hs1; split at hs1
+          · rename_i hb; injection hs1 with hs1; subst hs1; exact ⟨hb, hrest⟩
+          · cases hs1
+        | finish t =>
+          simp only [ChangeSection.step] at hs1; split at hs1
+          · rename_i hb; injection hs1 with hs1; subst hs1; exact ⟨hb, hrest⟩
+          · cases hs1
+        | acquire t =>
+          simp only [ChangeSection.step] at hs1; split at hs1
+          · injection hs1 with hs1; subst hs1; exact hrest
+          · cases hs1
+        | merge t j =>
+          simp only [ChangeSection.step] at hs1; split at hs1
+          · injection hs1 with hs1; subst hs1; exact hrest
+          · cases hs1
+        | call t =>
+          simp only [ChangeSection.step] at hs1; split at hs1
+          · simp only [doCall] at hs1
+            split at hs1
+            · injection hs1 with hs1; subst hs1; exact hrest
+            · cases hs1
+          · cases hs1
+        | direct t =>
+          simp only [ChangeSection.step] at hs1; split at hs1
+          · injection hs1 with hs1; subst hs1; exact hrest
+          · cases hs1
+        | store t v =>
+          simp only [ChangeSection.step] at hs1; split at hs1
+          · injection hs1 with hs1; subst hs1; exact hrest
+          · cases hs1
+        | release t =>
+          simp only [ChangeSection.step] at hs1; split at hs1
+          · injection hs1 with hs1; subst hs1; exact hrest
+          · cases hs1
+      · cases hr
+  exact gen acts _ s h
+
 /-- the driver is called at most once per critical section entered with a merge … and never without one: a `call`
 is only possible after a `merge` of the same section succeeded -/
 theorem call_needs_merge (s s' : CState J V) (t : Nat) (hs : ChangeSection.step merge s (.call t) = some s') :
@@ -552,18 +615,26 @@ open SectionExample in
 /-- non-vacuity: two clients change different members of a struct, a poll in between; both changes survive and each
 driver call is the payload merged into the value of its moment -/
 example : (ChangeSection.run mergePI (ChangeSection.init (0, 0))
-    [.acquire 1, .merge 1 (some 1, none), .call 1, .store 1 (1, 0), .release 1,
+    [.begin 1, .acquire 1, .merge 1 (some 1, none), .call 1, .store 1 (1, 0), .release 1, .finish 1,
      .acquire 3, .store 3 (1, 5), .release 3,
-     .acquire 2, .merge 2 (none, some 2), .call 2, .store 2 (1, 2), .release 2]).map
+     .begin 2, .acquire 2, .merge 2 (none, some 2), .call 2, .store 2 (1, 2), .release 2, .finish 2]).map
       (fun s => (s.cur, s.calls.map (fun c => (c.current, c.value)))) = some ((1, 2), [((0, 0), (1, 0)), ((1, 5), (1, 2))]) := by
   decide
+
+open SectionExample in
+/-- non-vacuity of `requests_one_at_a_time`: a run with two requests and a poll; a second `begin` inside a request is not a run -/
+example : OneAtATime (J := Option Nat × Option Nat) (V := Nat × Nat) none
+    [.begin 1, .acquire 1, .merge 1 (some 1, none), .call 1, .store 1 (1, 0), .release 1, .finish 1,
+     .acquire 3, .store 3 (1, 5), .release 3, .begin 2, .finish 2] ∧
+    ChangeSection.run mergePI (ChangeSection.init (0, 0)) [.begin 1, .begin 2] = none := by
+  refine ⟨by simp [OneAtATime], by decide⟩
 
 open SectionExample in
 /-- the interleaving of the seeded mutant (client 2 merges while client 1 is still in the driver, i.e. outside the
 critical section) is not a run of the system -/
 example : ChangeSection.run mergePI (ChangeSection.init (0, 0))
-    [.acquire 1, .merge 1 (some 1, none), .call 1, .merge 2 (none, some 2), .store 1 (1, 0), .release 1,
-     .acquire 2, .call 2] = none := by
+    [.begin 1, .acquire 1, .merge 1 (some 1, none), .call 1, .begin 2, .merge 2 (none, some 2), .store 1 (1, 0), .release 1,
+     .finish 1, .acquire 2, .call 2] = none := by
   decide
 
 end changeSection
